@@ -7,29 +7,20 @@ From AhrsProps Require Import C03_core.
 Import ListNotations.
 Open Scope R_scope.
 
-Lemma madgwick_imu_partial w x y z gx gy gz ax ay az : unit4 w x y z ->
-  unit_or_degenerate (C03_madgwick_imu_R w x y z gx gy gz ax ay az).
-Proof. unfold unit4. intros U. Time partial_by_walk C03_madgwick_imu_R U. Time Qed.
-Lemma aqua_imu_partial w x y z gx gy gz ax ay az : unit4 w x y z ->
-  unit_or_degenerate (C03_aqua_imu_R w x y z gx gy gz ax ay az).
-Proof. unfold unit4. intros U. Time partial_by_walk C03_aqua_imu_R U. Time Qed.
 Lemma aqua_est_acc_partial ax ay az : unit_or_degenerate (C03_aqua_est_acc_R ax ay az).
-Proof. Time partial_by_walk C03_aqua_est_acc_R I. Time Qed.
+Proof. partial_by_walk C03_aqua_est_acc_R I. Qed.
 Lemma aqua_est_am_partial ax ay az mx my mz : unit_or_degenerate (C03_aqua_est_am_R ax ay az mx my mz).
-Proof. Time partial_by_walk C03_aqua_est_am_R I. Time Qed.
-Lemma fourati_partial w x y z gx gy gz ax ay az mx my mz : unit4 w x y z ->
-  unit_or_degenerate (C03_fourati_R w x y z gx gy gz ax ay az mx my mz).
-Proof. unfold unit4. intros U. Time partial_by_walk C03_fourati_R U. Time Qed.
+Proof. partial_by_walk C03_aqua_est_am_R I. Qed.
 Lemma roleq_partial w x y z gx gy gz ax ay az mx my mz : unit4 w x y z ->
   unit_or_degenerate (C03_roleq_R w x y z gx gy gz ax ay az mx my mz).
-Proof. unfold unit4. intros U. Time partial_by_walk C03_roleq_R U. Time Qed.
+Proof. unfold unit4. intros U. partial_by_walk C03_roleq_R U. Qed.
 Lemma angular_closed_partial w x y z gx gy gz : unit4 w x y z -> unit_or_degenerate (C03_angular_closed_R w x y z gx gy gz).
-Proof. unfold unit4. intros U. Time partial_by_walk C03_angular_closed_R U. Time Qed.
+Proof. unfold unit4. intros U. partial_by_walk C03_angular_closed_R U. Qed.
 Lemma angular_series1_partial w x y z gx gy gz : unit4 w x y z -> unit_or_degenerate (C03_angular_series1_R w x y z gx gy gz).
-Proof. unfold unit4. intros U. Time partial_by_walk C03_angular_series1_R U. Time Qed.
+Proof. unfold unit4. intros U. partial_by_walk C03_angular_series1_R U. Qed.
 Lemma angular_series2_partial w x y z gx gy gz : unit4 w x y z -> unit_or_degenerate (C03_angular_series2_R w x y z gx gy gz).
-Proof. unfold unit4. intros U. Time partial_by_walk C03_angular_series2_R U. Time Qed.
+Proof. unfold unit4. intros U. partial_by_walk C03_angular_series2_R U. Qed.
 Lemma saam_partial ax ay az mx my mz : unit_or_degenerate (C03_saam_R ax ay az mx my mz).
-Proof. Time partial_by_walk C03_saam_R I. Time Qed.
+Proof. partial_by_walk C03_saam_R I. Qed.
 Lemma famc_partial ax ay az mx my mz : unit_or_degenerate (C03_famc_R ax ay az mx my mz).
-Proof. Time partial_by_walk C03_famc_R I. Time Qed.
+Proof. partial_by_walk C03_famc_R I. Qed.
